@@ -201,6 +201,7 @@ type engine struct {
 	splitSeen   bool
 	handlerSeen int
 	extraSend   map[int]int
+	kills       int
 }
 
 func runWorld(t *testing.T, r *simkit.Run) {
@@ -497,26 +498,29 @@ func (e *engine) collect() []simkit.Action {
 		if !faults {
 			continue
 		}
-		if c.FReset && !cl.closeSent && !cl.finPending && !cl.closed {
+		killsLeft := e.kills < (c.Sessions+1)/2
+		if c.FReset && killsLeft && !cl.closeSent && !cl.finPending && !cl.closed {
 			acts = append(acts, simkit.Action{Prio: 6, Key: fmt.Sprintf("reset c%d", k), Weight: 1, Do: func() {
 				q.r.Fault("conn_reset")
+				e.kills++
 				cl.sock = nil
 				e.sendClose(cl, errSimReset, "reset")
 			}})
 			acts = append(acts, simkit.Action{Prio: 6, Key: fmt.Sprintf("halfclose c%d", k), Weight: 1, Do: func() {
 				q.r.Fault("conn_half_close")
+				e.kills++
 				cl.finPending = true
 			}})
 		}
 		if c.FStall && !cl.closed {
 			if cl.stalled {
 				acts = append(acts, simkit.Action{Prio: 4, Key: fmt.Sprintf("unstall c%d", k), Weight: 2, Do: func() { cl.stalled = false }})
-			} else {
-				acts = append(acts, simkit.Action{Prio: 6, Key: fmt.Sprintf("stall c%d", k), Weight: 1, Do: func() { q.r.Fault("peer_read_stall"); cl.stalled = true }})
+			} else if cl.stalls < 2 {
+				acts = append(acts, simkit.Action{Prio: 6, Key: fmt.Sprintf("stall c%d", k), Weight: 1, Do: func() { q.r.Fault("peer_read_stall"); cl.stalls++; cl.stalled = true }})
 			}
 		}
-		if c.FKick && !cl.closed && cl.seenOpen > 0 {
-			acts = append(acts, simkit.Action{Prio: 6, Key: fmt.Sprintf("kick c%d", k), Weight: 1, Do: func() { e.doKick(cl) }})
+		if c.FKick && killsLeft && !cl.closed && cl.seenOpen > 0 {
+			acts = append(acts, simkit.Action{Prio: 6, Key: fmt.Sprintf("kick c%d", k), Weight: 1, Do: func() { e.kills++; e.doKick(cl) }})
 		}
 	}
 	if faults && !e.stopping {
@@ -546,6 +550,11 @@ func (e *engine) collect() []simkit.Action {
 		return nil
 	}
 	e.idles = 0
+	for i := range acts {
+		if acts[i].Prio <= 3 {
+			acts[i].Weight *= 4 // faults are the rare choice
+		}
+	}
 	q.r.State(open, parkedByKind["gate"], parkedByKind["batch"]+parkedByKind["ubatch"], parkedByKind["frame"], parkedByKind["auth"], e.drainActive, e.drainStep > 0, e.stopping, e.backlogBucket())
 	return acts
 }
@@ -1451,9 +1460,12 @@ func (e *engine) finalChecks() bool {
 			}
 		}
 		q.r.Logf("final c%d closed=%v why=%q sent=%d delivered=%d dispatched=%d acks=%d pongs=%d", cl.k, cl.closed, cl.closeWhy, len(sends), delivered, cl.nHSends, cl.nAcks, cl.nPongs)
+		q.r.ProbeN("sendacks_written", cl.nAcks)
+		q.r.ProbeN("sends_dispatched", cl.nHSends)
 		if cl.closed {
 			continue
 		}
+		q.r.Probe("session_open_at_end")
 		if cl.nAcks != cl.nHSends {
 			q.fail("sendack-missing", "", fmt.Sprintf("c%d: session still open, %d SENDs dispatched but %d SENDACKs written", cl.k, cl.nHSends, cl.nAcks), map[string]any{"dispatched": cl.nHSends, "acks": cl.nAcks})
 			return false
